@@ -482,6 +482,107 @@ Proof.
   - simpl. apply ext_calls_ok; exact Hv.
 Qed.
 
+(* ---------- EstimatesExtraction: EVERY operation sequence on one object ---------- *)
+(* what "valid" means for one operation: the arguments of extract have the declared shapes *)
+Definition xop_valid (el ec : nat) (o : xop) : Prop :=
+  match o with
+  | XExtract full pr n wn pw ln tr tc =>
+      pr = el + ec /\ wn = n /\ 0 < n /\ (full = true -> pw = tc /\ ln = n /\ tr = n /\ 0 < tc)
+  | _ => True
+  end.
+
+(* invariant of the object: the window is at least 2, every stored estimate has state_size_ rows, and there are
+   as many of them as the buffer says.  NOTHING is assumed about the three cached weight vectors: whatever
+   their lengths, the call that uses one brings it to the number of stored estimates first. *)
+Definition x_inv (ssz : nat) (s : xstate) : Prop :=
+  2 <= hwin (xh s) /\ Forall (fun e => e = ssz) (xels s) /\ List.length (xels s) <= hsz (xh s).
+
+Lemma h_get_ok e ssz k els : Forall (fun x => x = ssz) els -> List.length els <= k ->
+  Forall item_ok (p_h_get e ssz k els).
+Proof.
+  intros Hels Hlen. unfold p_h_get. apply Forall_flat_map, Forall_forall. intros [i e0] Hin.
+  pose proof (in_combine_l _ _ _ _ Hin) as Hi. pose proof (in_combine_r _ _ _ _ Hin) as He.
+  apply in_seq in Hi. rewrite Forall_forall in Hels. specialize (Hels _ He). simpl.
+  repeat step; finish.
+Qed.
+
+Lemma avg_tail_ok avg el ec k c : 0 < k ->
+  Forall item_ok (fst (x_avg_tail avg el ec k c c)) /\ snd (x_avg_tail avg el ec k c c) = k.
+Proof.
+  intro Hk. unfold x_avg_tail. cbv zeta. cbn [fst snd].
+  destruct (c =? k) eqn:E.
+  - b2p. subst c. split; [|reflexivity]. simpl. apply ext_mean_ok.
+  - split; [|reflexivity]. apply Forall_app; split; [|apply ext_mean_ok].
+    cbn [negb when]. destruct avg as [|[|a]]; repeat step; finish.
+Qed.
+
+Lemma h_set_win e s w : 2 <= hwin s -> 2 <= hwin (snd (h_set e s w)).
+Proof.
+  intro H. unfold h_set, h_target. destruct (w =? hwin s) eqn:E; cbn [snd hwin]; [exact H|].
+  destruct (w <? 2) eqn:E2; [lia|]. destruct (h_max <=? w) eqn:E3; unfold h_max in *; b2p; lia.
+Qed.
+
+Lemma x_inv_cache avg s h els c ssz :
+  x_inv ssz (XS (xstat s) (xavg s) h els (xsm s) (xwm s) (xem s)) -> x_inv ssz (x_set_cache avg s h els c).
+Proof. unfold x_inv. destruct avg as [|[|[|a]]]; simpl; auto. Qed.
+
+Lemma x_step_ok el ec s o : xop_valid el ec o -> x_inv (el + ec) s ->
+  Forall item_ok (fst (fst (x_step el ec s o))) /\ x_inv (el + ec) (snd (fst (x_step el ec s o))).
+Proof.
+  intros Hv Hinv. pose proof Hinv as (Hw & Hels & Hlen).
+  destruct o as [stat avg | w | | full pr n wn pw ln tr tc]; unfold x_step; cbv zeta.
+  - split; [constructor | exact Hinv].
+  - destruct (pos w).
+    + pose proof (h_set_ok e_ext_win (xh s) w) as H0. pose proof (h_set_win e_ext_win (xh s) w Hw) as H1.
+      destruct (h_set e_ext_win (xh s) w) as [p h']. cbn [fst snd] in *. split; [exact H0|].
+      repeat split; cbn [xh xels]; [exact H1 | apply Forall_firstn; exact Hels | apply firstn_le_length].
+    + split; [constructor | exact Hinv].
+  - split; [constructor|]. cbn [fst snd]. repeat split; cbn [xh xels hwin hsz List.length]; auto.
+  - destruct Hv as (-> & -> & Hn & Hfull).
+    destruct ((2 <=? xstat s) && negb full) eqn:Eg; [split; [constructor | exact Hinv]|].
+    assert (Hev : ext_valid (xstat s) el ec (el + ec) n n pw ln tr tc).
+    { unfold ext_valid. split; [reflexivity|]. split; [reflexivity|]. split; [exact Hn|]. intro Hs. apply Hfull.
+      destruct full; [reflexivity|]. apply andb_false_iff in Eg. destruct Eg as [Eg|Eg]; [b2p; lia | discriminate]. }
+    pose proof (ext_stat_ok _ _ _ _ _ _ _ _ _ _ Hev) as Hs.
+    assert (Hcur : ext_stat_rows (xstat s) el ec (el + ec) = el + ec) by (destruct (xstat s); reflexivity).
+    rewrite Hcur.
+    destruct (xavg s) as [|a] eqn:Ea; [split; [exact Hs | exact Hinv]|].
+    pose proof (h_step_ok (el + ec) (xh s) (HAdd (el + ec))) as Hh.
+    assert (Hk : 0 < hsz (snd (h_step (el + ec) (xh s) (HAdd (el + ec)))) /\
+                 2 <= hwin (snd (h_step (el + ec) (xh s) (HAdd (el + ec))))).
+    { cbn [h_step]. destruct (hwin (xh s) <? S (hsz (xh s))) eqn:E; cbn [snd hsz hwin]; b2p; lia. }
+    destruct (h_step (el + ec) (xh s) (HAdd (el + ec))) as [pa h']. cbn [fst snd] in *. destruct Hk as (Hk & Hw').
+    pose proof (avg_tail_ok (S a) el ec (hsz h') (x_cache (S a) s) Hk) as (Ht & Hc).
+    destruct (x_avg_tail (S a) el ec (hsz h') (x_cache (S a) s) (x_cache (S a) s)) as [pt c']. cbn [fst snd] in *.
+    assert (Hels' : Forall (fun e => e = el + ec) (firstn (hsz h') ((el + ec) :: xels s)))
+      by (apply Forall_firstn; constructor; [reflexivity | exact Hels]).
+    split.
+    + repeat step; try exact Hs; try exact Hh; try exact Ht.
+      apply h_get_ok; [exact Hels' | apply firstn_le_length].
+    + apply x_inv_cache. repeat split; cbn [xh xels]; [exact Hw' | exact Hels' | apply firstn_le_length].
+Qed.
+
+Lemma x_run_ok el ec ops : Forall (xop_valid el ec) ops ->
+  forall s, x_inv (el + ec) s -> Forall item_ok (fst (fst (x_run el ec s ops))).
+Proof.
+  induction 1 as [|o r Ho Hr IH]; intros s Hs; simpl; [constructor|].
+  pose proof (x_step_ok el ec s o Ho Hs) as (Hp & Hs').
+  destruct (x_step el ec s o) as [[p s'] ob]. cbn [fst snd] in *.
+  specialize (IH s' Hs'). destruct (x_run el ec s' r) as [[p2 ob2] w2]. cbn [fst snd] in *.
+  apply Forall_app; split; assumption.
+Qed.
+
+Lemma x_init_inv ssz : x_inv ssz x_init.
+Proof. unfold x_inv, x_init, h_init; simpl. repeat split; [lia | constructor | lia]. Qed.
+
+Lemma case_extseq_safe el ec ops : Forall (xop_valid el ec) ops -> run (case_extseq el ec ops) = Safe.
+Proof. intro H. apply run_safe_iff. unfold case_extseq. apply x_run_ok; [exact H | apply x_init_inv]. Qed.
+
+(* the cached weight vector a windowed call multiplies with has one entry per stored estimate afterwards:
+   the length the call leaves in its family's cache is the number of history columns, whatever it was before *)
+Lemma x_avg_tail_len avg el ec k c : snd (x_avg_tail avg el ec k c c) = k.
+Proof. unfold x_avg_tail. cbn [snd]. destruct (c =? k) eqn:E; b2p; congruence. Qed.
+
 (* ---------- augmentWithNoise (GaussianMixture part and the ParticleSet override) ---------- *)
 Lemma augment_ok l comps qr qc : Forall item_ok (p_augment l comps qr qc).
 Proof.
